@@ -12,6 +12,10 @@ CLAIMED = {
    text="Theorem C09_range_sound: for every width 0..254 (even or odd), every wire and every assignment of the gadget's accumulators, satisfaction of the emitted rows forces the canonical value below 2^width (induction along the flattened quad chain, no wrap below 2^254 < r), also inside any larger satisfied system; entry points proved to emit identical gates (clamp above 128 pairs). The layout the theorem speaks about is compared with the real Composer for every width 0..=256 / pairs 0..=130 on every run, the range widget's three coded forms are compared with the model formula, and every real snapshot is evaluated by the proved row evaluator against the expected verdict (completeness direction and adversarial accumulator templates).",
    technique="Coq proof (induction over the quad chain) + exhaustive-width differential correspondence (L3) + widget formula tie (L1) + evaluator-based exactness probe",
    design="5/C09"),
+ "C11": dict(
+   text="Theorems C11_truncate_sound (every N <= 254: the returned witness equals the canonical value mod 2^N for every assignment of high part, inverse, is_top, guard and all range accumulators; built from C11_canonical_guard and C11_split_sound, incl. the is-zero gadget and the two extreme-width numeric side conditions) and C11_decomposition_sound (N <= 254: satisfiable only below 2^N, bits are the canonical ones) with C11_decomposition_complete_any; the full decomposition statement is refuted for N=256 by theorem C11_decomposition_alias_refuted (known finding F4, reproduced on the real code every run). Layouts are compared with the real Composer for every N on every run; honest, alias (v+r), forced-output and flipped-bit assignments are re-derived on the real layout and decided by the proved row evaluator.",
+   technique="Coq proof (canonical-split arithmetic over Z, induction over bits) + exhaustive-N differential correspondence + evaluator-decided adversarial templates on real layouts",
+   design="5/C11, 6/F4"),
  "C08": dict(
    text="Machine-checked theorems (Props/C08.v) state, for every selector tuple, wiring and assignment, the exact relation each arithmetic/equality/boolean/selection component enforces, uniqueness of returned witnesses, completeness of honest values and locality of arithmetic blocks inside any satisfied system; the Gallina composer model they are about is compared on every run with the real Composer (gates, public-input rows, witness values) on generated programs, and the real snapshots are probed with perturbed assignments evaluated by the proved-sound row evaluator.",
    technique="Coq proof over a Gallina model of the composer + differential correspondence (L3 snapshot tie) + exactness probe on real layouts",
